@@ -21,6 +21,8 @@ class LinearCache:
         self.weight = None
         self.inverse = None
         self.logabsdet = None
+        # Identifies the parameter values the cached tensors were computed from.
+        self.key = None
 
     def invalidate(self):
         self.weight = None
@@ -52,7 +54,22 @@ class Linear(Transform):
         else:
             return self.forward_no_cache(inputs)
 
+    def _parameter_key(self):
+        # In-place updates of a parameter (load_state_dict or dtype conversion of a sub-module
+        # that owns part of the parameterization, optimizer steps) bump its version counter.
+        return tuple(
+            (p.data_ptr(), None if p.is_inference() else p._version, p.dtype)
+            for p in self.parameters()
+        )
+
+    def _check_cache_is_current(self):
+        key = self._parameter_key()
+        if key != self.cache.key:
+            self.cache.invalidate()
+            self.cache.key = key
+
     def _check_forward_cache(self):
+        self._check_cache_is_current()
         # The cache holds detached tensors: a cached value that still carried its autograd graph
         # could be back-propagated through only once (the graph is freed by the first backward)
         # and could not be deep-copied.
@@ -76,6 +93,7 @@ class Linear(Transform):
             return self.inverse_no_cache(inputs)
 
     def _check_inverse_cache(self):
+        self._check_cache_is_current()
         if self.cache.inverse is None and self.cache.logabsdet is None:
             inverse, logabsdet = self.weight_inverse_and_logabsdet()
             self.cache.inverse, self.cache.logabsdet = inverse.detach(), logabsdet.detach()
